@@ -560,8 +560,85 @@ func (E *Engine) verifyFunc(key string) *FuncResult {
 		fr.Obs[name] = ob
 		fr.Checks++
 	}
+	if ct != nil && (len(ct.Keywords) > 0 || len(ct.Synonyms) > 0) {
+		// the spellings a production recognises: read off the string comparisons of the real SSA and compared
+		// with the list the contract takes from the property statement (a syntactic obligation)
+		name := key + "/keywords"
+		ob := &ObResult{Name: name, Func: key, Subs: 1, Proved: true, BySolver: map[string]int{"syntactic": 1}}
+		if why := keywordMismatch(fn, ct); why != "" {
+			ob.Proved = false
+			ob.Fails = []SubResult{{Check: Check{Ob: name, Note: "the spellings compared in the code are not the documented ones"}, Status: "refuted", Detail: why}}
+		}
+		fr.Obs[name] = ob
+		fr.Checks++
+	}
 	fr.Seconds = time.Since(t0).Seconds()
 	return fr
+}
+
+// keywordMismatch: the set of string constants that fn compares with == (switch cases included) must be exactly
+// ct.Keywords, and for every pair of ct.Synonyms the two comparisons must branch to the same block.
+func keywordMismatch(fn *ssa.Function, ct *Contract) string {
+	target := map[string]*ssa.BasicBlock{}
+	var order []string
+	for _, b := range fn.Blocks {
+		for _, in := range b.Instrs {
+			bo, ok := in.(*ssa.BinOp)
+			if !ok || (bo.Op != token.EQL && bo.Op != token.NEQ) {
+				continue
+			}
+			var c *ssa.Const
+			if k, ok := bo.X.(*ssa.Const); ok {
+				c = k
+			} else if k, ok := bo.Y.(*ssa.Const); ok {
+				c = k
+			}
+			if c == nil || c.Value == nil || c.Value.Kind() != constant.String {
+				continue
+			}
+			w := constant.StringVal(c.Value)
+			if _, seen := target[w]; !seen {
+				order = append(order, w)
+			}
+			// where does a successful comparison go? (the If that tests this value, if it is the block's last instruction)
+			var tb *ssa.BasicBlock
+			if ifi, ok := b.Instrs[len(b.Instrs)-1].(*ssa.If); ok && ifi.Cond == ssa.Value(bo) {
+				tb = b.Succs[0]
+				if bo.Op == token.NEQ {
+					tb = b.Succs[1]
+				}
+			}
+			target[w] = tb
+		}
+	}
+	if len(ct.Keywords) > 0 {
+		want := map[string]bool{}
+		for _, k := range ct.Keywords {
+			want[k] = true
+		}
+		var missing, extra []string
+		for _, k := range ct.Keywords {
+			if _, ok := target[k]; !ok {
+				missing = append(missing, k)
+			}
+		}
+		for _, k := range order {
+			if !want[k] {
+				extra = append(extra, k)
+			}
+		}
+		if len(missing) > 0 || len(extra) > 0 {
+			return fmt.Sprintf("documented spellings not compared in the code: %v; spellings compared but not documented: %v", missing, extra)
+		}
+	}
+	for _, p := range ct.Synonyms {
+		ta, oka := target[p[0]]
+		tb, okb := target[p[1]]
+		if !oka || !okb || ta == nil || ta != tb {
+			return fmt.Sprintf("%q and %q do not select the same code", p[0], p[1])
+		}
+	}
+	return ""
 }
 
 // nondeterminism: a syntactic reason why the result of fn might not be a function of its
@@ -919,16 +996,19 @@ var solvers = []solverSpec{
 	{"z3-4.8.12", func(ms int) []string {
 		return []string{"z3", "-smt2", fmt.Sprintf("-t:%d", ms), "smt.mbqi=false", "auto_config=false", "smt.case_split=3"}
 	}},
-	// the retry solvers run with different search options than the first pass (smt.case_split=3 makes most
-	// checks fast but sends a few into long case analyses that the default heuristic avoids)
+	// the retries include both z3 versions with the default case-split heuristic as well: smt.case_split=3 makes
+	// most checks fast but sends a few into long case analyses that the default heuristic avoids (and vice versa)
 	{"z3-5.1.0", func(ms int) []string {
-		return []string{"z3-new", "-smt2", fmt.Sprintf("-t:%d", ms), "smt.mbqi=false"}
+		return []string{"z3-new", "-smt2", fmt.Sprintf("-t:%d", ms), "smt.mbqi=false", "auto_config=false", "smt.case_split=3"}
 	}},
 	{"cvc5-1.0", func(ms int) []string {
 		return []string{"cvc5", "--lang=smt2", "--incremental", fmt.Sprintf("--tlimit-per=%d", ms)}
 	}},
 	{"z3-4.8.12/default-split", func(ms int) []string {
 		return []string{"z3", "-smt2", fmt.Sprintf("-t:%d", ms), "smt.mbqi=false"}
+	}},
+	{"z3-5.1.0/default-split", func(ms int) []string {
+		return []string{"z3-new", "-smt2", fmt.Sprintf("-t:%d", ms), "smt.mbqi=false"}
 	}},
 }
 
@@ -1065,15 +1145,32 @@ func (E *Engine) solvePath(key string, pi int, p *PathResult, full string) []Sub
 		single := head1(full, i)
 		var notes []string
 		notes = append(notes, fmt.Sprintf("%s: %s", out[i].Solver, out[i].Status))
-		retry := []solverSpec{solvers[1], solvers[2], solvers[3]}
+		retry := []solverSpec{solvers[1], solvers[4], solvers[2], solvers[3]}
 		tmo := E.TimeoutR
 		if E.knownFailing()[c.Ob] {
 			// an obligation recorded as a known finding is expected to fail: one short second opinion is enough
 			retry = []solverSpec{solvers[1]}
 			tmo = E.TimeoutQ
 		}
+		// two rounds: every retry configuration with a short limit first (a proof that one configuration finds in
+		// a fraction of a second must not wait behind another one's full timeout), then with the full limit
+		type attempt struct {
+			s   solverSpec
+			tmo int
+		}
+		var plan []attempt
+		short := 8000
+		if short < tmo {
+			for _, s := range retry {
+				plan = append(plan, attempt{s, short})
+			}
+		}
 		for _, s := range retry {
-			r, raw := runSolver(s, tmo, single, n, E.WorkDir, fmt.Sprintf("%s.c%d.%s", tag, i, s.name))
+			plan = append(plan, attempt{s, tmo})
+		}
+		for ai, at := range plan {
+			s := at.s
+			r, raw := runSolver(s, at.tmo, single, n, E.WorkDir, fmt.Sprintf("%s.c%d.%s.%d", tag, i, sanitize(s.name), ai))
 			st := "unknown"
 			if r != nil && r[i] != "" {
 				st = r[i]
